@@ -10,6 +10,8 @@ package c13
 
 import (
 	"bufio"
+	"bytes"
+	"compress/gzip"
 	"context"
 	"encoding/json"
 	"fmt"
@@ -103,6 +105,12 @@ const (
 
 	// Oversized bodies without a Content-Length: a complete, properly
 	// terminated chunked stream that is longer than the size limit.
+	// Empty bodies whose length is not known from the headers (the response
+	// has ContentLength -1), three framings.
+	kEmptyChunked = "empty-chunked" // 200, Transfer-Encoding: chunked, only the terminating zero chunk
+	kEmptyClose   = "empty-close"   // 200, no Content-Length, Connection: close, headers then end of stream
+	kEmptyGzip    = "empty-gzip"    // 200, Content-Encoding: gzip, a valid gzip member of zero bytes (net/http gunzips transparently)
+
 	kOversizeChunked    = "oversize-chunked"     // the complete offered version, then padding beyond the limit
 	kOversizeChunkedCut = "oversize-chunked-cut" // padding after the first marker, so that the limit falls inside a later rule of the offered version
 
@@ -221,7 +229,7 @@ func in2(s string, set []string) (ok bool) {
 
 // fetchFaults are the kinds after which no complete body was delivered.
 var fetchFaults = []string{kDial, kTimeout, kTimeoutBody, k404, k500, kEmpty, kOversize, kCut, kChunked,
-	kOversizeChunked, kOversizeChunkedCut}
+	kOversizeChunked, kOversizeChunkedCut, kEmptyChunked, kEmptyClose, kEmptyGzip}
 
 // kindsFor returns the deviation kinds applicable to a download position.
 func kindsFor(pos string) (kinds []string) {
@@ -244,8 +252,8 @@ func kindsFor(pos string) (kinds []string) {
 // instead of a missing key, the swapped variants other than swap+nourl, the
 // service-index shapes added later) are explored with up to two deviations.
 func coreKind(pos, kind string) (ok bool) {
-	if kind == kOversizeChunkedCut {
-		// Near-duplicate of kOversizeChunked.
+	if in2(kind, []string{kOversizeChunkedCut, kEmptyChunked, kEmptyClose, kEmptyGzip}) {
+		// Near-duplicates of kOversizeChunked and kEmpty.
 		return false
 	}
 	if isFetchFault(kind) || kind == kNotJSON {
@@ -512,7 +520,9 @@ func (w *world) transport() (tr *http.Transport) {
 	return &http.Transport{
 		DialContext:        w.dial,
 		DisableKeepAlives:  true,
-		DisableCompression: true,
+		// Like http.DefaultTransport, which the code uses in production, ask
+		// for gzip and decode it transparently.
+		DisableCompression: false,
 	}
 }
 
@@ -618,6 +628,15 @@ func rawResponse(pos, path string, v int, kind string) (raw []byte, stall bool) 
 		}
 
 		return ok(b.Len(), b.String()), false
+	case kEmptyChunked:
+		return chunkedOK(hdr, ""), false
+	case kEmptyClose:
+		return []byte("HTTP/1.1 200 OK\r\n" + hdr + "Content-Type: text/plain\r\n\r\n"), false
+	case kEmptyGzip:
+		z := emptyGzip()
+
+		return []byte(fmt.Sprintf("HTTP/1.1 200 OK\r\n%sContent-Type: text/plain\r\nContent-Encoding: gzip\r\nContent-Length: %d\r\n\r\n%s",
+			hdr, len(z), z)), false
 	case kOversizeChunked, kOversizeChunkedCut:
 		return chunkedOK(hdr, oversizedBody(pos, full, kind == kOversizeChunkedCut)), false
 	case kCut:
@@ -694,6 +713,17 @@ func oversizedBody(pos, full string, cut bool) (body string) {
 	}
 
 	return pre + padding(pos, limit-len(pre)-at) + post
+}
+
+// emptyGzip returns a valid gzip stream of zero bytes.
+func emptyGzip() (z string) {
+	b := &bytes.Buffer{}
+	zw := gzip.NewWriter(b)
+	if err := zw.Close(); err != nil {
+		panic(err)
+	}
+
+	return b.String()
 }
 
 // chunkedOK returns a complete 200 answer with the body in chunked transfer
